@@ -258,6 +258,32 @@ def rot_frame(left, right, deps, tags):
     return deps, tags
 
 
+def _rows_concat(name, elems):
+    """row count of a concatenation relative to the vertex count: one block with a ('rows-of', attr, k) tag plus blocks of a
+    statically known number of rows (list displays; single vectors under vstack)."""
+    if name not in ("concatenate", "vstack", "append", "row_stack"):
+        return frozenset()
+    base = None
+    extra = 0
+    for e in elems:
+        ro = [t for t in e.tags if isinstance(t, tuple) and t and t[0] == "rows-of"]
+        if len(ro) == 1 and base is None:
+            base = ro[0]
+        elif ro:
+            return frozenset()
+        elif e.kind in ("list", "tuple") and e.items is not None:
+            extra += len(e.items) if name != "vstack" or not all(i.kind in ("float", "int") for i in e.items) else 1
+        elif e.kind in ("arr", "unknown") and e.deps and all(a == "_normal" for (_o, a) in e.deps if _o != "call"):
+            extra += 1            # the normal as one more row (vstack of the vector, or normal[np.newaxis] under concatenate)
+        elif e.is_number_const():
+            extra += 1
+        else:
+            return frozenset()
+    if base is None:
+        return frozenset()
+    return frozenset([("rows-of", base[1], base[2] + extra)])
+
+
 def count_origin(v):
     """provenance of a count (len / shape / size): of the convex hull's output, or of input data (parameter / state array).
     Encoded as ('ret', '<count:..>') so that it travels through comparisons, boolean operators and builtins like the
@@ -616,6 +642,8 @@ def call_ext(interp, ext, node, args, kwargs, st):
             elif name == "sum" and ax is None and a0.sym is not None and a0.kind == "arr" and a0.items is None:
                 sym = a0.sym             # sum over the terms of a vectorised expression: the representative term
             rtags = frozenset([("reduced", name)]) | keep_batch
+            if ax is not None and ax.has_const() and ax.const in (1, -1) and a0 is not None:
+                rtags = rtags | frozenset(t_ for t_ in a0.tags if isinstance(t_, tuple) and t_ and t_[0] == "rows-of")
             if name in ("sum", "nansum") and a0 is not None and "square-of" in a0.tags:
                 rtags = rtags | {"sumsq"}          # sum of squares of one vector: a squared length
             if name in ("max", "min", "amax", "amin") and a0 is not None:
@@ -651,6 +679,10 @@ def call_ext(interp, ext, node, args, kwargs, st):
             return fresh(D0, tags=frozenset(["ones"]))
         if name in ("full", "full_like"):
             v = _arg(args, kwargs, 1, "fill_value", Val())
+            if name == "full_like" and a0 is not None and "dtype" not in kwargs and ("maybe-int" in a0.tags or "raw-param" in a0.tags) \
+                    and not v.is_number_const() and dim_known(dim_collapse(v.dim)) and dim_collapse(v.dim)[1] != 0:
+                # a buffer with the caller's dtype filled with a length: integer prototypes truncate the fill value
+                interp.emit(st, "int-inplace", node, op="full_like", rhs=v, target="<full_like>", cur=a0)
             if v.is_number_const() and (v.const == 0 or v.const != v.const or v.const in (float("inf"), float("-inf"))):
                 # filled with 0 / inf / nan: a placeholder of any dimension, columns typed by what is stored later
                 out = fresh(ANY, tags=frozenset(["alloc"]))
@@ -741,6 +773,11 @@ def call_ext(interp, ext, node, args, kwargs, st):
             return fresh(d)
         if name in ("sqrt", "cbrt", "square"):
             e = {"sqrt": Fraction(1, 2), "cbrt": Fraction(1, 3), "square": 2}[name]
+            if a0 is not None and a0.items is not None and 0 < len(a0.items) <= 6 and all(i_.kind in ("float", "int") for i_ in a0.items):
+                # a display of scalars: component by component (closed-form rules see each entry)
+                its = tuple(Val(dim=dim_pow(i_.dim, e), kind="float", deps=i_.deps, pdeps=i_.pdeps, born=t,
+                                sym=i_.sym.pow(e) if i_.sym is not None else None) for i_ in a0.items)
+                return fresh(dim_pow(a0.dim, e), kind="arr", items=its)
             sym = a0.sym.pow(e) if (a0 is not None and a0.sym is not None) else None
             return fresh(dim_pow(a0.dim, e) if a0 is not None else TOP, sym=sym,
                          guardp=a0.guardp if name != "square" else frozenset(),
@@ -798,8 +835,8 @@ def call_ext(interp, ext, node, args, kwargs, st):
                     if dim_known(ed):
                         d = ed
                         break
-                return fresh(d, tags=frozenset(["concat", "hetero"]))
-            return fresh(d, tags=frozenset(["concat"]))
+                return fresh(d, tags=frozenset(["concat", "hetero"]) | _rows_concat(name, elems))
+            return fresh(d, tags=frozenset(["concat"]) | _rows_concat(name, elems))
         if name in ("take_along_axis", "take", "compress", "delete", "choose", "select", "insert"):
             tags = frozenset()
             idx = args[1] if len(args) > 1 else Val()
